@@ -41,6 +41,8 @@ type c20Script struct {
 	Early   bool        `json:"early_hints,omitempty"` // 103 before the final status
 	// flush scripts: the response head is flushed before any body byte and the handler waits until the client has it
 	HeadFlush bool `json:"flush_head_before_body,omitempty"`
+	// the body is written with io.Copy from a plain reader (uses the writer's ReadFrom when it has one)
+	Copy bool `json:"io_copy,omitempty"`
 }
 
 // watchdog of the head-flush handshake (generous; shortened after it has fired once so that a broken tree is reported fast)
@@ -143,7 +145,11 @@ func (in *c20Inner) ServeHTTP(w http.ResponseWriter, req *http.Request) {
 	}
 	for ci, n := range s.Chunks {
 		tag := []byte(sfmt("<c%d>", ci))
-		_, _ = w.Write(bytes.Repeat(tag, n/len(tag)+1)[:n])
+		if s.Copy {
+			_, _ = io.Copy(w, struct{ io.Reader }{bytes.NewReader(bytes.Repeat(tag, n/len(tag)+1)[:n])})
+		} else {
+			_, _ = w.Write(bytes.Repeat(tag, n/len(tag)+1)[:n])
+		}
 		if s.Kind == "flush" && ci == 0 {
 			if f, ok := w.(http.Flusher); ok {
 				f.Flush()
@@ -164,6 +170,7 @@ type c20MW struct {
 	Intervene bool   `json:"intervene,omitempty"`
 	Sticky    bool   `json:"sticky,omitempty"`
 	Retry     string `json:"retry,omitempty"` // buffer: a retry expression that is false for the response the handler gives
+	MaxReq    int64  `json:"max_request_body,omitempty"` // buffer: request-size limit equal to the size of the body sent (not exceeded)
 }
 
 type c20Built struct {
@@ -240,6 +247,9 @@ func c20Build(specs []c20MW, inner http.Handler) (http.Handler, error) {
 			}
 			if sp.Retry != "" {
 				opts = append(opts, buffer.Retry(sp.Retry))
+			}
+			if sp.MaxReq > 0 {
+				opts = append(opts, buffer.MaxRequestBodyBytes(sp.MaxReq))
 			}
 			h, err = buffer.New(h, opts...)
 		default:
@@ -336,6 +346,18 @@ func c20Stacks(c *Ctx) {
 				}
 			}
 		}
+		// a request body whose size is exactly what the buffers in the stack allow (a limit reached is not a limit exceeded)
+		var testBody []byte
+		if mode == "transparent" && script.Kind == "plain" && !recorderMode && r.IntN(4) == 0 {
+			testBody = detBody(1+r.IntN(3000), uint64(i))
+			for k := range specs {
+				if specs[k].Kind == "buffer" {
+					specs[k].MaxReq = int64(len(testBody))
+				}
+			}
+			c.Count("requests_with_body_at_the_limit", 1)
+		}
+		script.Copy = r.IntN(4) == 0
 		explicitCT := r.IntN(3) != 0
 		if explicitCT {
 			script.Headers = append(script.Headers, [2]string{"Content-Type", "application/x-verif"})
@@ -528,7 +550,7 @@ func c20Stacks(c *Ctx) {
 				onHead = func() { inner.gotHead <- struct{}{} }
 			}
 		}
-		resp, body, err := do("test", "", nil, onFirst)
+		resp, body, err := do("test", "", testBody, onFirst)
 		if err != nil {
 			c.Violation("transparent/failed", sfmt("request through the stack failed: %v", err), desc)
 			return
